@@ -51,8 +51,10 @@ class Facts:
         # instances: root def id -> list of instance records
         self.inst_roots = {ir['root']: ir['insts'] for ir in r['instances']}
         for insts in self.inst_roots.values():
-            for ins in insts:
+            for idx, ins in enumerate(insts):
+                ins['idx'] = idx
                 ins['callmap'] = {bb: c for bb, c in ins['calls']}
+                ins['fnitemmap'] = {k: c for k, c in ins.get('fnitems', [])}
                 ins['closuremap'] = {(bb, si): cid for bb, si, cid in ins['closures']}
         self.fn_by_path = {}
         for f in r['fns']:
